@@ -8,6 +8,7 @@ import (
 	"io"
 	"os"
 	"os/exec"
+	"strconv"
 	"path/filepath"
 	"runtime"
 	"strings"
@@ -110,6 +111,7 @@ func TestC13(t *testing.T) {
 	c13FileSink(run, r)
 	c13Channel(run, r)
 	c13FileFaults(run, r)
+	c13PartialWrites(run, r)
 }
 
 // ---- writer.Sink ------------------------------------------------------------------------------------------
@@ -367,6 +369,72 @@ func c13FileFaults(run *rt.Run, r *rt.Rand) {
 		run.Add("write_fault_runs", 1)
 		run.Add("write_fault_unacked", len(a.order)-len(a.acked))
 		run.Eval(fmt.Sprintf("fault|%s|%d|%v|%d", errno, k, w.TSOnly, w.MaxBytes))
+		os.RemoveAll(base)
+	}
+}
+
+// ---- FileSink: a write that is accepted partly and then fails (RLIMIT_FSIZE in a child) -----------------------
+//
+// A write that crosses the limit is short, the continuation fails with EFBIG: the sink sees an error after some
+// bytes of the record reached the file. Its single retry goes to whatever reopen yields (a new file in the
+// timestamped naming mode). The fragment left at the limit is the trace of the failed attempt; everything else
+// must be whole records, and every acknowledged record must be there exactly once.
+func c13PartialWrites(run *rt.Run, r *rt.Rand) {
+	child := os.Getenv("VERIF_AUX_FSWRITER")
+	if child == "" {
+		return
+	}
+	n := run.N(16, 400)
+	for i := 0; i < n && !run.Stop(); i++ {
+		cr := r.Fork()
+		limit := cr.Range(120, 700)
+		// rotation is "enabled" (file names carry a timestamp, so a reopen yields a new file) but never due
+		w := crashWorkload{Writers: 1, Records: cr.Range(6, 30), TSOnly: cr.Intn(4) == 0, MaxBytes: 1 << 20}
+		base, _ := os.MkdirTemp("", "fs13partial")
+		dir := filepath.Join(base, "d")
+		os.Mkdir(dir, 0o755)
+		ackp := filepath.Join(base, "ack")
+		run.Progress("C13 partial write %d RLIMIT_FSIZE=%d %+v", i, limit, w)
+		c := exec.Command(child, append(w.args(dir, "-"), "-fsize", strconv.Itoa(limit))...)
+		c.Env = append(os.Environ(), "GOMAXPROCS=1")
+		out, _ := c.Output()
+		os.WriteFile(ackp, out, 0o644)
+		a := readAck(ackp)
+		if !a.done {
+			run.Inconclusive("child did not finish under RLIMIT_FSIZE")
+			os.RemoveAll(base)
+			continue
+		}
+		files, tear, size := readAll(dir, nil)
+		wit := func(extra string) any {
+			return map[string]any{"sink": "FileSink", "fault": fmt.Sprintf("RLIMIT_FSIZE=%d: the write that crosses it is accepted partly, then fails with EFBIG", limit), "workload": fmt.Sprintf("%+v", w), "acked": a.ackOrd, "called": a.order, "file_sizes": size, "detail": extra}
+		}
+		cnt := map[string]int{}
+		partial := 0
+		for nme, rs := range files {
+			if tear[nme] != size[nme] {
+				if size[nme] == limit {
+					partial++ // the fragment of the attempt that hit the limit
+				} else {
+					run.Violation("history-pattern:torn", fmt.Sprintf("file %s (%d bytes, limit %d) holds bytes that are not whole records at offset %d", nme, size[nme], limit, tear[nme]), wit(""))
+				}
+			}
+			for _, p := range rs {
+				cnt[p.ID]++
+			}
+		}
+		for _, id := range a.order {
+			if a.acked[id] && cnt[id] != 1 {
+				run.Violation("history-pattern:exactly-once", fmt.Sprintf("record %s was acknowledged but occurs %d times as a whole record after a partly accepted write", id, cnt[id]), wit(""))
+			}
+			if !a.acked[id] && cnt[id] > 1 {
+				run.Violation("history-pattern:exactly-once", fmt.Sprintf("unacknowledged record %s occurs %d times", id, cnt[id]), wit(""))
+			}
+		}
+		run.Add("partial_write_runs", 1)
+		run.Add("partial_write_fragments", partial)
+		run.Add("partial_write_unacked", len(a.order)-len(a.acked))
+		run.Eval(fmt.Sprintf("partial|%d|%v|%d", limit/100, w.TSOnly, partial))
 		os.RemoveAll(base)
 	}
 }
